@@ -70,6 +70,9 @@ enum Existing {
     None,
     /// a fabric with the same root public key and the same fabric id is already installed
     SameFabric,
+    /// the same fabric (root public key + fabric id), installed under a RE-ISSUED root
+    /// certificate: same key and names, another serial number - different bytes
+    SameFabricReissuedRoot,
     /// same fabric id under another root: a different fabric
     SameIdOtherRoot,
     /// same root, other fabric id: a different fabric
@@ -368,6 +371,7 @@ fn install_case() -> impl Strategy<Value = C19Case> {
             6 => Just(1u8), // chain deviation
             2 => Just(2u8), // foreign key
             2 => Just(3u8), // fabric exists
+            2 => Just(6u8), // fabric exists under a re-issued root certificate
             1 => Just(4u8), // same id other root
             1 => Just(5u8), // same root other id
         ],
@@ -383,6 +387,7 @@ fn install_case() -> impl Strategy<Value = C19Case> {
                 3 => inst.existing = Existing::SameFabric,
                 4 => inst.existing = Existing::SameIdOtherRoot,
                 5 => inst.existing = Existing::SameRootOtherId,
+                6 => inst.existing = Existing::SameFabricReissuedRoot,
                 _ => {}
             }
             C19Case { p, devs, inst }
@@ -553,6 +558,12 @@ fn run_install<C: Crypto>(crypto: &C, c: &C19Case, update: bool) -> Result<Insta
         let (root, fid) = match c.inst.existing {
             Existing::None => (None, 0),
             Existing::SameFabric => (Some(pre.root.clone()), pre.fabric_id),
+            Existing::SameFabricReissuedRoot => {
+                let mut p2 = c.p.clone();
+                // same key, same names: only the serial number (and with it the bytes) differs
+                p2.root.serial = if p2.root.serial == [0x5a] { vec![0x5b] } else { vec![0x5a] };
+                (Some(forge(crypto, &p2, &[], None)?.root), pre.fabric_id)
+            }
             Existing::SameIdOtherRoot => (Some(other_root(&c.p)?), pre.fabric_id),
             Existing::SameRootOtherId => (
                 Some(pre.root.clone()),
@@ -612,7 +623,7 @@ fn run_install<C: Crypto>(crypto: &C, c: &C19Case, update: bool) -> Result<Insta
         truth.add_noc = Expect::Reject;
         truth.update_noc = Expect::Reject;
     }
-    if !update && c.inst.existing == Existing::SameFabric {
+    if !update && matches!(c.inst.existing, Existing::SameFabric | Existing::SameFabricReissuedRoot) {
         truth.rule = "fabric-exists";
         truth.add_noc = Expect::Reject;
     }
